@@ -482,6 +482,28 @@ pub enum BuiltinProcedureBody<R: RealNumberInternalTrait> {
     Pure(fn(ArgVec<R>) -> Result<Value<R>>),
     #[allow(clippy::type_complexity)]
     Impure(Rc<dyn Fn(ArgVec<R>, Rc<Environment<R>>) -> Result<Value<R>>>),
+    /// `apply`: unpacked by the trampoline of `Interpreter::apply_procedure`, so that the
+    /// procedure it is handed is called in tail position
+    Apply,
+}
+
+/// The procedure and the argument list an `(apply proc arg ... args)` call stands for.
+pub fn spread_apply_arguments<R: RealNumberInternalTrait>(
+    arguments: ArgVec<R>,
+) -> Result<(Procedure<R>, ArgVec<R>)> {
+    let mut iter = arguments.into_iter();
+    let proc = iter.next().unwrap().expect_procedure()?;
+    let mut args = iter.collect::<ArgVec<R>>();
+    if !args.is_empty() {
+        let extended = args.pop().unwrap();
+
+        let extended = match extended {
+            Value::Pair(p) => p.into_iter().collect::<ArgVec<R>>(),
+            other => return error!(LogicError::TypeMisMatch(other.to_string(), Type::Pair))?,
+        };
+        args.extend(extended);
+    }
+    Ok((proc, args))
 }
 
 impl<R: RealNumberInternalTrait> PartialEq for BuiltinProcedureBody<R> {
@@ -493,6 +515,7 @@ impl<R: RealNumberInternalTrait> PartialEq for BuiltinProcedureBody<R> {
                 #[allow(clippy::vtable_address_comparisons)]
                 Rc::ptr_eq(fpa, fpb)
             }
+            (BuiltinProcedureBody::Apply, BuiltinProcedureBody::Apply) => true,
             _ => false,
         }
     }
@@ -503,6 +526,10 @@ impl<R: RealNumberInternalTrait> BuiltinProcedureBody<R> {
         match &self {
             Self::Pure(pointer) => pointer(args),
             Self::Impure(pointer) => pointer(args, env.clone()),
+            Self::Apply => {
+                let (procedure, args) = spread_apply_arguments(args)?;
+                crate::interpreter::Interpreter::apply_procedure(&procedure, args, env)
+            }
         }
     }
 }
